@@ -401,7 +401,7 @@ def jobs(tier, seed):
     js.append(Job("cache-keys[spherical_triangles]", "h_cache_spherical", {}, {"max_paths": 20000}, weight=5))
     js.append(Job("cache-keys[triangle_constants]", "h_cache_constants", {}, dict(o), weight=5))
     funcs = sorted(INT_FUNCS)
-    res_pairs = [(3, 3), (28, 28), (0, 1)] if tier == "quick" else [(3, 3), (28, 28), (27, 28), (0, 1), (1, 2), (2, 2), (-1, 0), (9, 10)]
+    res_pairs = [(3, 3), (28, 28), (0, 1), (0, 0), (1, 1), (2, 2), (-1, -1)] if tier == "quick" else [(3, 3), (28, 28), (27, 28), (0, 1), (1, 2), (2, 2), (-1, 0), (9, 10)]
     for f in funcs:
         for g in (funcs if tier != "quick" else [f]):
             for rx, ry in res_pairs:
